@@ -88,6 +88,8 @@ type Frame struct {
 	params  map[string]*Term
 	phiEnv  map[*ssa.Phi]*Term
 	oblPref string
+	parent  *Frame          // the frame this one is inlined into
+	site    ssa.Instruction // the call instruction in the parent frame
 }
 
 func (vc *FnVC) unsupportedf(format string, args ...any) {
@@ -185,7 +187,7 @@ func GenerateVC(g *Gen, fn *ssa.Function, ct *Contract) (vc *FnVC) {
 	fr := vc.newFrame(fn, "", true)
 	st := NewState()
 	// parameters
-	env := &Env{g: g, vars: map[string]*Term{}, st: st, where: ct.Source, params: map[string]bool{}}
+	env := &Env{g: g, vars: map[string]*Term{}, st: st, where: ct.Source, params: map[string]bool{}, ctx: []string{shortFnName(fn)}}
 	for _, p := range fn.Params {
 		env.params[p.Name()] = true
 		t := Const("p_"+smtName(p.Name()), g.sortOf(p.Type()))
